@@ -207,6 +207,7 @@ pub fn record(pool_path: &str, w: &mut dyn Write, seed: u64, n_events: usize) {
         if !holed.is_empty() && rng.gen_range(0..3) == 0 { holed[rng.gen_range(0..holed.len())] } else { rng.gen_range(0..polys.len()) }
     };
     while emitted < n_events {
+        crate::ctx::beat(&format!("{{\"record\": \"c04\", \"seed\": {seed}, \"event\": {emitted}}}"));
         k += 1;
         let ia = pick(&mut rng, &polys, &holed);
         let ib = pick(&mut rng, &polys, &holed);
